@@ -22,7 +22,7 @@ import (
 
 func TestMain(m *testing.M) { harness.Main(m) }
 
-const rule = "C08: soft-delete models parents / children (belongs to parent, has many toys) / toys / tags (many2many) over the C02 columns; every live row gets a twin (id+100) with identical column values, foreign keys and links which is soft-deleted through gorm (primary table) before the checked operation, followed by 0-2 further history steps (soft delete / unscoped delete of id subsets, each verified against the live/marked/gone model); the checked operation is a C02 chain (plus chains starting with Or) ending in one of the paths find, first/take/last, count, pluck, find-in-batches, rows+scanrows, scan, relation Joins/InnerJoins (with and without ON conditions), preload (plain, nested, many2many, with conditions), association find/count (has many, many2many), update/updates/updatecolumn(s), delete (also repeated), each also under Unscoped(). Scoped reads must return exactly the live ids on which the reference predicate is TRUE, scoped writes must leave every marked row byte-identical and Delete must keep the physical row count; Unscoped reads see live and marked rows, Unscoped Delete removes physically. non-trivial = the chain has an OR (call or inside a unit) or a NOT and its predicate is TRUE on at least one pair live row + marked twin; distinct = data + history + chain + path"
+const rule = "C08: soft-delete models grands / parents (belongs to grand) / children (belongs to parent, has many toys) / toys / tags (many2many) over the C02 columns; every live row gets a twin (id+100) with identical column values, foreign keys and links which is soft-deleted through gorm (primary table) before the checked operation, followed by 0-2 further history steps (soft delete / unscoped delete of id subsets, each verified against the live/marked/gone model); the checked operation is a C02 chain (plus chains starting with Or) ending in one of the paths find, first/take/last, count, pluck, find-in-batches, rows+scanrows, scan, relation Joins/InnerJoins (one level Child->Parent with and without ON conditions; nested path Parent.Grand over a three-level soft-delete family, alone and combined with the one-level join in either order), preload (plain, nested, many2many, with conditions), association find/count (has many, many2many), update/updates/updatecolumn(s), delete (also repeated), each also under Unscoped(). Scoped reads must return exactly the live ids on which the reference predicate is TRUE, scoped writes must leave every marked row byte-identical and Delete must keep the physical row count; Unscoped reads see live and marked rows, Unscoped Delete removes physically. non-trivial = the chain has an OR (call or inside a unit) or a NOT and its predicate is TRUE on at least one pair live row + marked twin; distinct = data + history + chain + path"
 
 // ---- models ----------------------------------------------------------------------------------------
 
@@ -33,10 +33,28 @@ type Parent struct {
 	Cs        string
 	Cn        *int
 	Ct        *string
+	Cor       int
+	Band      string
 	Mark      int
 	DeletedAt gorm.DeletedAt
 	Children  []Child `gorm:"foreignKey:ParentID"`
 	Tags      []Tag   `gorm:"many2many:parent_tags"`
+	GrandID   int
+	Grand     *Grand `gorm:"foreignKey:GrandID"`
+}
+
+// Grand is the third level of the nested join path Child -> Parent -> Grand.
+type Grand struct {
+	ID        int `gorm:"primaryKey"`
+	Ca        int
+	Cb        int
+	Cs        string
+	Cn        *int
+	Ct        *string
+	Cor       int
+	Band      string
+	Mark      int
+	DeletedAt gorm.DeletedAt
 }
 
 type Child struct {
@@ -46,6 +64,8 @@ type Child struct {
 	Cs        string
 	Cn        *int
 	Ct        *string
+	Cor       int
+	Band      string
 	Mark      int
 	DeletedAt gorm.DeletedAt
 	ParentID  int
@@ -60,6 +80,8 @@ type Toy struct {
 	Cs        string
 	Cn        *int
 	Ct        *string
+	Cor       int
+	Band      string
 	Mark      int
 	DeletedAt gorm.DeletedAt
 	ChildID   int
@@ -72,12 +94,15 @@ type Tag struct {
 	Cs        string
 	Cn        *int
 	Ct        *string
+	Cor       int
+	Band      string
 	Mark      int
 	DeletedAt gorm.DeletedAt
 }
 
 var (
-	specParents  = cond.TableSpec{Name: "parents", Soft: true}
+	specParents  = cond.TableSpec{Name: "parents", Soft: true, Extra: []string{"grand_id"}}
+	specGrands   = cond.TableSpec{Name: "grands", Soft: true}
 	specChildren = cond.TableSpec{Name: "children", Soft: true, Extra: []string{"parent_id"}}
 	specToys     = cond.TableSpec{Name: "toys", Soft: true, Extra: []string{"child_id"}}
 	specTags     = cond.TableSpec{Name: "tags", Soft: true}
@@ -158,7 +183,9 @@ func (h hop) String() string {
 }
 
 type tcase struct {
-	Parents, Children, Toys, Tags table // state after the twins were marked
+	Parents, Children, Toys, Tags table    // state after the twins were marked
+	Grands                        table    // third level (nested join paths only)
+	JoinPath                      []string // relation join names in call order, e.g. ["Parent.Grand", "Parent"]
 	Links                         [][2]int
 	History                       []hop
 	Path                          string // see paths
@@ -171,6 +198,15 @@ type tcase struct {
 	PK                            int        // key of the model value / association owner
 	Batch                         int
 	Repeat                        bool
+}
+
+func (c tcase) nested() bool {
+	for _, j := range c.JoinPath {
+		if j == "Parent.Grand" {
+			return true
+		}
+	}
+	return false
 }
 
 func (c tcase) primary() string {
@@ -186,6 +222,12 @@ func (c tcase) String() string {
 	switch c.Path {
 	case "joins", "preload", "assoc":
 		fmt.Fprintf(&b, " children=%s", c.Children)
+	}
+	if c.nested() {
+		fmt.Fprintf(&b, " grands=%s", c.Grands)
+	}
+	if c.Path == "joins" {
+		fmt.Fprintf(&b, " joins=%v", c.JoinPath)
 	}
 	if c.Path == "preload" && c.Variant == "Children.Toys" {
 		fmt.Fprintf(&b, " toys=%s", c.Toys)
@@ -229,7 +271,7 @@ func (c tcase) String() string {
 
 // ---- generation ---------------------------------------------------------------------------------
 
-var paths = []string{"find", "find", "first", "count", "pluck", "batches", "rows", "scan", "joins", "joins", "preload", "preload", "assoc", "assoc", "update", "update", "update", "delete", "delete", "delete"}
+var paths = []string{"find", "find", "first", "count", "pluck", "batches", "rows", "scan", "joins", "joins", "joins", "preload", "preload", "assoc", "assoc", "update", "update", "update", "delete", "delete", "delete"}
 
 func skipClass(cl string) bool { return harness.OpenClass("C08", cl) }
 
@@ -291,7 +333,15 @@ func genCase(rt *rapid.T) tcase {
 	c.Path = paths[x.N(len(paths))]
 	c.Unscoped = x.Pct(30)
 	c.UnscopedLast = x.Pct(50)
-	c.Parents = genTable(x, rt, 1+x.N(5), nil)
+	var gids []int
+	if c.Path == "joins" {
+		c.JoinPath = [][]string{{"Parent"}, {"Parent"}, {"Parent.Grand"}, {"Parent.Grand"}, {"Parent", "Parent.Grand"}, {"Parent.Grand", "Parent"}}[x.N(6)]
+		if c.nested() {
+			c.Grands = genTable(x, rt, 1+x.N(4), nil)
+			gids = append(ids(c.Grands), 999)
+		}
+	}
+	c.Parents = genTable(x, rt, 1+x.N(5), gids)
 	pids := append(ids(c.Parents), 999)
 	switch c.Path {
 	case "joins", "preload", "assoc":
@@ -335,7 +385,7 @@ func genCase(rt *rapid.T) tcase {
 		}
 	case "joins":
 		c.Variant = []string{"left", "inner"}[x.N(2)]
-		if x.Pct(35) {
+		if len(c.JoinPath) == 1 && !c.nested() && x.Pct(50) {
 			pcfg := cfg
 			pcfg.Qual = "Parent"
 			pcfg.NoStruct = true
@@ -486,7 +536,7 @@ func setup(c *tcase) (*world, error) {
 		return nil, fmt.Errorf("%s: %w", what, err)
 	}
 	joins := c.Path == "joins"
-	for _, s := range []cond.TableSpec{specParents, specChildren, specToys, specTags} {
+	for _, s := range []cond.TableSpec{specParents, specChildren, specToys, specTags, specGrands} {
 		if err := s.Create(d.SQL); err != nil {
 			return fail("create", err)
 		}
@@ -495,11 +545,14 @@ func setup(c *tcase) (*world, error) {
 		return fail("create", err)
 	}
 	// the primary table starts all live (its twins are marked through gorm below)
-	if err := specParents.Insert(d.SQL, noExtra(toInsert(c.Parents, joins))); err != nil {
+	if err := specParents.Insert(d.SQL, toInsert(c.Parents, joins)); err != nil {
 		return fail("insert parents", err)
 	}
 	if err := specChildren.Insert(d.SQL, toInsert(c.Children, !joins)); err != nil {
 		return fail("insert children", err)
+	}
+	if err := specGrands.Insert(d.SQL, noExtra(toInsert(c.Grands, true))); err != nil {
+		return fail("insert grands", err)
 	}
 	if err := specToys.Insert(d.SQL, toInsert(c.Toys, true)); err != nil {
 		return fail("insert toys", err)
@@ -562,9 +615,9 @@ func (w *world) history() (string, error) {
 			r := *h.Create
 			var v interface{}
 			if w.c.Path == "joins" {
-				v = &Child{ID: r.ID, Ca: r.Ca, Cb: r.Cb, Cs: r.Cs, Cn: r.Cn, Ct: r.Ct, ParentID: r.FK}
+				v = &Child{ID: r.ID, Ca: r.Ca, Cb: r.Cb, Cs: r.Cs, Cn: r.Cn, Ct: r.Ct, Cor: r.Cor, Band: r.Band, ParentID: r.FK}
 			} else {
-				v = &Parent{ID: r.ID, Ca: r.Ca, Cb: r.Cb, Cs: r.Cs, Cn: r.Cn, Ct: r.Ct}
+				v = &Parent{ID: r.ID, Ca: r.Ca, Cb: r.Cb, Cs: r.Cs, Cn: r.Cn, Ct: r.Ct, Cor: r.Cor, Band: r.Band}
 			}
 			if err := w.d.DB.Create(v).Error; err != nil {
 				return fmt.Sprintf("history step %s failed: %v", h, err), nil
@@ -576,7 +629,7 @@ func (w *world) history() (string, error) {
 			found := false
 			for _, a := range after {
 				if a.ID == r.ID {
-					found = a.DeletedAt == "NULL" && a.Row.String() == (cond.Row{ID: r.ID, Ca: r.Ca, Cb: r.Cb, Cs: r.Cs, Cn: r.Cn, Ct: r.Ct}).String()
+					found = a.DeletedAt == "NULL" && a.Row.String() == r.String()
 				}
 			}
 			if !found || len(after) != len(before)+1 {
@@ -932,22 +985,30 @@ func (w *world) run() (string, error) {
 func (w *world) runJoins() (string, error) {
 	c := w.c
 	db := w.d.DB
-	var args []interface{}
-	if c.Pre != nil {
-		q, _ := c.Pre.QueryArgs(w.env)
-		args = append(args, q)
+	path := c.JoinPath
+	if len(path) == 0 {
+		path = []string{"Parent"}
 	}
-	if c.Variant == "inner" {
-		db = db.InnerJoins("Parent", args...)
-	} else {
-		db = db.Joins("Parent", args...)
+	for _, name := range path {
+		var args []interface{}
+		if c.Pre != nil && name == "Parent" {
+			q, _ := c.Pre.QueryArgs(w.env)
+			args = append(args, q)
+		}
+		if c.Variant == "inner" {
+			db = db.InnerJoins(name, args...)
+		} else {
+			db = db.Joins(name, args...)
+		}
 	}
+	what := fmt.Sprintf("%s join %v", c.Variant, path)
+	nested := c.nested()
 	var cs []Child
 	tx := w.chain(db).Find(&cs)
 	if tx.Error != nil {
-		return c.Variant + " join failed: " + tx.Error.Error(), nil
+		return what + " failed: " + tx.Error.Error(), nil
 	}
-	// which parents may be attached
+	// which parents / grandparents may be attached
 	attach := func(pid int) bool {
 		if !c.Parents.isVisible(pid, c.Unscoped) {
 			return false
@@ -957,6 +1018,10 @@ func (w *world) runJoins() (string, error) {
 		}
 		return true
 	}
+	attachGrand := func(pid int) bool {
+		return attach(pid) && c.Grands.isVisible(c.Parents.find(pid).FK, c.Unscoped)
+	}
+	onOr := c.Pre != nil && hasOrCall(c.Pre.Group)
 	var got []int
 	for _, ch := range cs {
 		got = append(got, ch.ID)
@@ -966,42 +1031,60 @@ func (w *world) runJoins() (string, error) {
 		}
 		if ch.Parent != nil {
 			if pr := c.Parents.find(ch.Parent.ID); pr != nil && pr.State == marked && !c.Unscoped {
-				return fmt.Sprintf("%s join attached soft-deleted parent %d to child %d without Unscoped", c.Variant, ch.Parent.ID, ch.ID), nil
+				return fmt.Sprintf("%s attached soft-deleted parent %d to child %d without Unscoped", what, ch.Parent.ID, ch.ID), nil
+			}
+			if g := ch.Parent.Grand; g != nil {
+				if gr := c.Grands.find(g.ID); gr != nil && gr.State == marked && !c.Unscoped {
+					return fmt.Sprintf("%s attached soft-deleted grandparent %d to parent %d of child %d without Unscoped", what, g.ID, ch.Parent.ID, ch.ID), nil
+				}
 			}
 		}
-		if c.Pre != nil && hasOrCall(c.Pre.Group) {
+		if onOr {
 			continue // ON condition with an Or call: only the leak above is asserted (domain note)
 		}
 		switch {
 		case ch.Parent != nil && ch.Parent.ID != r.FK:
-			return fmt.Sprintf("%s join attached parent %d to child %d whose parent_id is %d", c.Variant, ch.Parent.ID, ch.ID, r.FK), nil
+			return fmt.Sprintf("%s attached parent %d to child %d whose parent_id is %d", what, ch.Parent.ID, ch.ID, r.FK), nil
 		case ch.Parent != nil && !attach(r.FK):
-			return fmt.Sprintf("%s join attached parent %d to child %d although that parent is not visible or fails the ON condition", c.Variant, ch.Parent.ID, ch.ID), nil
+			return fmt.Sprintf("%s attached parent %d to child %d although that parent is not visible or fails the ON condition", what, ch.Parent.ID, ch.ID), nil
 		case ch.Parent == nil && attach(r.FK):
-			return fmt.Sprintf("%s join did not attach visible parent %d to child %d", c.Variant, r.FK, ch.ID), nil
+			return fmt.Sprintf("%s did not attach visible parent %d to child %d", what, r.FK, ch.ID), nil
+		}
+		if nested && ch.Parent != nil {
+			pr := c.Parents.find(r.FK)
+			g := ch.Parent.Grand
+			switch {
+			case g != nil && g.ID != pr.FK:
+				return fmt.Sprintf("%s attached grandparent %d to parent %d whose grand_id is %d", what, g.ID, pr.ID, pr.FK), nil
+			case g != nil && !attachGrand(r.FK):
+				return fmt.Sprintf("%s attached grandparent %d (child %d) although it is not visible", what, g.ID, ch.ID), nil
+			case g == nil && attachGrand(r.FK):
+				return fmt.Sprintf("%s did not attach visible grandparent %d to parent %d of child %d", what, pr.FK, pr.ID, ch.ID), nil
+			}
 		}
 	}
 	pred := c.pred()
-	if c.Variant == "inner" && !(c.Pre != nil && hasOrCall(c.Pre.Group)) {
-		// inner join: children without an attachable parent drop out
+	if c.Variant == "inner" && !onOr {
+		// inner join: children without an attachable parent (and, on a nested
+		// path, grandparent) drop out
 		var vis table
 		for _, r := range w.prim {
-			if attach(r.FK) {
+			if attach(r.FK) && (!nested || attachGrand(r.FK)) {
 				vis = append(vis, r)
 			}
 		}
-		return w.judgeRead(vis, got, pred, "InnerJoins(Parent).Find"), nil
+		return w.judgeRead(vis, got, pred, what+" Find"), nil
 	}
 	if c.Variant == "inner" {
 		// only the leak checks
 		for _, id := range got {
 			if r := w.prim.find(id); r == nil || r.State == gone || (r.State == marked && !c.Unscoped) {
-				return fmt.Sprintf("InnerJoins returned soft-deleted or missing child %d", id), nil
+				return fmt.Sprintf("%s returned soft-deleted or missing child %d", what, id), nil
 			}
 		}
 		return "", nil
 	}
-	return w.judgeRead(w.prim, got, pred, "Joins(Parent).Find"), nil
+	return w.judgeRead(w.prim, got, pred, what+" Find"), nil
 }
 
 func (w *world) runPreload() (string, error) {
@@ -1391,6 +1474,9 @@ func classes(c tcase) []string {
 	}
 	if c.Pre != nil {
 		cl = append(cl, "relcond:"+c.Path)
+	}
+	if c.Path == "joins" {
+		cl = append(cl, "joins:"+c.Variant+"/"+strings.Join(c.JoinPath, "+"))
 	}
 	if c.Repeat {
 		cl = append(cl, "delete:repeated")
